@@ -150,7 +150,25 @@ func itemB() reflect.Type {
 }
 
 // Types is the registry name -> type.
+// DirT and EntsT refer to each other (a cycle of two types).  Unlike the skeleton types above they
+// carry their rules in tags, and EntsT carries nothing but the markers of nested validation: whether
+// a sub-tree "has rules" cannot be told from EntsT alone.  The link field comes first in DirT.
+type DirT struct {
+	Entries *EntsT  `valid:"exist"`
+	Name    string  `valid:"required|dir name"`
+	Sub     []*DirT `valid:"exist"`
+	Note    string
+}
+
+type EntsT struct {
+	Items []*DirT         `valid:"exist"`
+	First *DirT           `valid:"exist"`
+	ByKey map[string]DirT `valid:"exist"`
+}
+
 var Types = map[string]reflect.Type{
+	"DirT":  reflect.TypeOf(DirT{}),
+	"EntsT": reflect.TypeOf(EntsT{}),
 	"Leaf":  reflect.TypeOf(Leaf{}),
 	"Mid":   reflect.TypeOf(Mid{}),
 	"Top":   reflect.TypeOf(Top{}),
